@@ -95,6 +95,10 @@ func (k *CommitmentKey) Open(commitment Commitment, message Message, witness Wit
 	if k == nil {
 		return commitments.ErrIsNil.WithMessage("commitment key must not be nil")
 	}
+	if message == nil {
+		// CommitWithWitness treats a nil message as the empty message; so must Open.
+		message = Message{}
+	}
 	if err := internal.GenericOpen(k, commitment, message, witness); err != nil {
 		return errs.Wrap(err).WithMessage("could not open commitment")
 	}
